@@ -91,7 +91,11 @@ func (e Engine) Generate(prop, tier string, run int, seed uint64) *kernel.Scenar
 	case "C14":
 		genC14(r, sc, run)
 	case "C13":
-		genC13(r, sc, tier, run)
+		if raceEnabled {
+			genC13concurrent(r, sc)
+		} else {
+			genC13(r, sc, tier, run)
+		}
 	default:
 		return nil
 	}
@@ -104,9 +108,13 @@ func (e Engine) Execute(t *testing.T, sc *kernel.Scenario, trace bool) *kernel.R
 	case "C16":
 		e.execC16(sc, res, trace)
 	case "C14":
-		e.execC14(sc, res, trace)
+		e.execC14(t, sc, res, trace)
 	case "C13":
-		e.execC13(sc, res, trace)
+		if sc.Cfg("concurrent", 0) == 1 {
+			e.execC13concurrent(sc, res, trace)
+		} else {
+			e.execC13(sc, res, trace)
+		}
 	}
 	return res
 }
